@@ -14,7 +14,7 @@ Definition saver_ended (sp : spc) : Prop := match sp with SEnded _ => True | _ =
 (* what is known about the exception and the disconnect count once the context is being left *)
 Definition leaving_ok (s : lstate) : Prop :=
   l_connected s = false
-  /\ ((l_disc s = 1%nat /\ (l_exc s = None \/ l_exc s = Some EBody \/ l_exc s = Some EDisconnect))
+  /\ ((l_disc s = 1%nat /\ (l_exc s = None \/ l_exc s = Some EBody \/ l_exc s = Some EDisconnect \/ l_exc s = Some EOwnerCancelled))
       \/ (l_disc s = 0%nat /\ l_exc s = Some EConnect)).
 
 Definition linv (s : lstate) : Prop :=
@@ -23,7 +23,7 @@ Definition linv (s : lstate) : Prop :=
   | MConnect => saver_alive (l_s s) /\ l_cancel s = false /\ l_disc s = 0%nat /\ l_exc s = None /\ l_connected s = false
   | MBody => saver_alive (l_s s) /\ l_cancel s = false /\ l_disc s = 0%nat /\ l_exc s = None /\ l_connected s = true
   | MDisconnect => saver_alive (l_s s) /\ l_cancel s = false /\ l_disc s = 0%nat
-                   /\ (l_exc s = None \/ l_exc s = Some EBody) /\ l_connected s = true
+                   /\ (l_exc s = None \/ l_exc s = Some EBody \/ l_exc s = Some EOwnerCancelled) /\ l_connected s = true
   | MCancel => saver_alive (l_s s) /\ l_cancel s = false /\ leaving_ok s
   | MAwait => ((saver_alive (l_s s) /\ l_cancel s = true) \/ (saver_ended (l_s s) /\ l_cancel s = false))
               /\ leaving_ok s
@@ -44,7 +44,7 @@ Ltac crush :=
 Lemma linv_step s c : linv s -> linv (lstep true s c).
 Proof.
   unfold linv, leaving_ok. destruct s as [m sp cn reg f fin d conn e sv]. cbn [l_m l_s l_cancel l_reg l_file l_final l_disc l_connected l_exc l_saves].
-  destruct c as [ok| | |].
+  destruct c as [ok| | | | |].
   - (* main *)
     destruct m as [| | | | | | |k|]; cbn [lstep main_step set_m l_m l_s l_cancel l_reg l_file l_final l_disc l_connected l_exc l_saves]; intros H.
     + crush.
@@ -74,6 +74,12 @@ Proof.
       destruct sp as [| |k' v| |c]; try exact H; destruct cn; try exact H; cbn in *; unfold save_steps in *; crush.
   - (* registry change *)
     destruct m as [| | | | | | |k|]; cbn [lstep l_m]; intros H; try exact H.
+  - (* the owner is cancelled in the body *)
+    destruct m as [| | | | | | |k|]; cbn [lstep l_m l_s l_cancel l_reg l_file l_final l_disc l_connected l_exc l_saves]; intros H; try exact H.
+    crush.
+  - (* re-entry *)
+    destruct m as [| | | | | | |k|]; cbn [lstep l_m l_s l_cancel l_reg l_file l_final l_disc l_connected l_exc l_saves]; intros H; try exact H.
+    repeat split.
 Qed.
 
 Theorem linv_run cs : forall s, linv s -> linv (lrun true s cs).
@@ -90,15 +96,33 @@ Theorem exit_clean v cs :
   /\ l_file s = FHolds (l_reg s)                     (* the file holds the registry as of exit *)
   /\ l_connected s = false
   /\ l_exc s <> Some ECancelled                      (* never CancelledError *)
-  /\ ((l_disc s = 1%nat /\ (l_exc s = None \/ l_exc s = Some EBody \/ l_exc s = Some EDisconnect))
+  /\ ((l_disc s = 1%nat /\ (l_exc s = None \/ l_exc s = Some EBody \/ l_exc s = Some EDisconnect \/ l_exc s = Some EOwnerCancelled))
       \/ (l_disc s = 0%nat /\ l_exc s = Some EConnect)).
 Proof.
   cbv zeta. intros Hm. pose proof (linv_run cs (linit v) (linv_init v)) as H.
   unfold linv in H. rewrite Hm in H. destruct H as [He [Hc [[Hconn Hl] Hf]]].
   split; [destruct (l_s (lrun true (linit v) cs)); try contradiction; eexists; reflexivity|].
   split; [exact Hf|]. split; [exact Hconn|]. split; [|exact Hl].
-  destruct Hl as [[_ [E|[E|E]]]|[_ E]]; rewrite E; discriminate.
+  destruct Hl as [[_ [E|[E|[E|E]]]]|[_ E]]; rewrite E; discriminate.
 Qed.
+
+(* in every session — the first and every re-entry — a saver task exists while the
+   body runs, and none exists before start() *)
+Theorem saver_in_every_session v cs :
+  let s := lrun true (linit v) cs in
+  (l_m s = MBody \/ l_m s = MConnect -> saver_alive (l_s s))
+  /\ (l_m s = MLoad \/ l_m s = MStart -> l_s s = SNone).
+Proof.
+  cbv zeta. pose proof (linv_run cs (linit v) (linv_init v)) as H. unfold linv in H.
+  split; intros [E|E]; rewrite E in H; apply H.
+Qed.
+
+(* start() creates the saver, and its first step begins a save of the registry: "saves once entered" *)
+Theorem entry_save s :
+  l_m s = MStart ->
+  let s1 := main_step true s true in
+  l_s s1 = SCreated /\ l_s (saver_step s1) = SSaving save_steps (l_reg s).
+Proof. intros H. unfold main_step. rewrite H. cbn. split; reflexivity. Qed.
 
 (* the main task is never stuck: while it waits for the saver, one saver step ends the saver *)
 Theorem await_unblocks s :
@@ -143,6 +167,15 @@ Theorem save_completes s v :
 Proof.
   intros H Hc. destruct s as [m sp cn reg f fin d conn e sv]. cbn in *. subst. cbn. repeat split.
 Qed.
+
+(* two sessions on one object: leave, enter again, the registry changes, the owner is cancelled *)
+Example reenter_example :
+  let s := lrun true (linit 7)
+    [CMain true; CMain true; CMain true; CMain true; CMain true; CMain true; CSaver; CMain true; CMain true; CMain true; CMain true;
+     CReenter; CMain true; CMain true; CMain true; CSaver; CSaver; CMutate; CCancelOwner; CMain true; CMain true; CSaver;
+     CMain true; CMain true; CMain true; CMain true] in
+  (l_m s, l_exc s, l_disc s, l_s s, l_file s, l_reg s) = (MDone, Some EOwnerCancelled, 1%nat, SEnded true, FHolds 8, 8%nat).
+Proof. vm_compute. reflexivity. Qed.
 
 Example exit_examples :
   let run cs := lrun true (linit 7) cs in
